@@ -8,8 +8,8 @@ from sxp import dump, parse
 def case_line(case):
     return dump(list(case[:4]) + [[]])
 
-def viol(what, cases, observed=None):
-    return {'what': what, 'cases': [case_line(c) for c in cases], 'observed': observed}
+def viol(what, cases, observed=None, tie=False):
+    return {'what': what, 'cases': [case_line(c) for c in cases], 'observed': observed, 'tie': tie}
 
 # ---- exact emulation of small pieces (round-to-nearest-even per operation) ---------------------
 def cumulative(fmt, ws):
@@ -398,7 +398,7 @@ def extra_C18(rng, tier, st, cov):
                     stats['skeleton_checks'] += 1
                     if mo is None or mo[1] != inv:
                         out.append(viol('system calls of one callback invocation differ from the model (create/truncate <name>.tmp, write, close, rename): %s' %
-                                        [(o[0], o[1][-12:]) for o in inv][:8], [], {'spec': case([['run', calls], ['text']]), 'real': dump(inv)[:600], 'model': dump(mo[1])[:600] if mo else None}))
+                                        [(o[0], o[1][-12:]) for o in inv][:8], [], {'spec': case([['run', calls], ['text']]), 'real': dump(inv)[:600], 'model': dump(mo[1])[:600] if mo else None}, tie=True))
                         break
             # kill enumeration
             nops = len(ops)
